@@ -85,6 +85,17 @@ def generate(tier, seed):
                 steps += [o] + block
             cases.append(case("eng", sp, adapter_M(lines), "-", steps))
             dist["mixed_arity"] += 1
+    # the arities the other way round (g ternary, g2 binary) and a request whose domain is the EMPTY string: the empty domain
+    # is a domain of its own - a g test in it must not be answered from the default graph, where the binary g2 keeps its links
+    m3 = And(Call("g", V("r", "sub"), V("p", "sub"), V("r", "dom")), Call("g2", V("r", "obj"), V("p", "obj")), Eq(V("r", "act"), V("p", "act")))
+    sp3 = "r=sub,dom,obj,act;p=sub,obj,act;g=3;g2=2;e=AO;m={%s}" % m3
+    dist["empty_domain_request"] = 0
+    lines3 = [["p", "p", "y", "y", "read"], ["p", "p", "z", "x", "read"], ["g", "g", "x", "y", "d1"], ["g", "g2", "x", "y"], ["g", "g2", "y", "z"], ["g", "g2", "x", "z"]]
+    reqs3 = [[s_, dm, o, "read"] for s_ in U for o in U for dm in ("", "d1")]
+    block3 = [Q_e(r) for r in reqs3] + ["?ga:g"]
+    for o in [A("g", "g2", ["z", "y"]), R("g", "g2", ["x", "y"]), A("g", "g", ["y", "z", "d1"]), A("g", "g", ["y", "z", ""]), "BR", "LD"]:
+        cases.append(case("eng", sp3, adapter_M(lines3), "-", block3 + [o] + block3))
+        dist["empty_domain_request"] += 1
     # over-long g rules: a rule under the binary g may carry extra "custom data" columns; when that column happens to be a
     # domain used under the ternary g2, a rebuild of the links (load_policy, build_role_links) must still file the g link in
     # the DEFAULT domain - it must never surface as a g2 membership in that domain
